@@ -364,12 +364,14 @@ def lib_wac():
             "wm": {"name": "test:mid", "version": None,
                    "imports": [("ns:p/i", Ii)], "exports": [("ns:p/k@1.0.0", Ik), ("f", fA)]},
         },
-        "kinds": {"fA": fA, "fB": fB, "Ii": Ii, "Ik": Ik},
+        # Ixz / I0: what target worlds ask of the export `h` (wider / narrower than the provider's {x})
+        "kinds": {"fA": fA, "fB": fB, "Ii": Ii, "Ik": Ik, "Ixz": inst(x=fA, z=fA), "I0": inst()},
         "import_names": ["f", "i", "k", "z", "ns:p/i", "ns:v/i@1.2.0", "my-i", "bad name"],
         "export_names": ["run", "r2", "f", "g", "h", "i", "k", "ns:p/i", "ns:p/k@1.0.0", "ns:q/j", "ns:r/j", "ns:p/out", "bad name"],
-        "def_names": [],
+        "def_names": ["run"],
         "valid_names": ["f", "i", "k", "z", "ns:p/i", "my-i", "run", "r2", "g", "h", "ns:p/k@1.0.0", "ns:q/j", "ns:r/j", "ns:p/out"],
-        "deftypes": {},
+        # `type run = func(..);` in a document: a function *type* under the name of a function export (C11)
+        "deftypes": {"tfun": ("value", [])},
     }
 
 
